@@ -5,7 +5,7 @@
 //!   table    : {method, version, ctype|null, accept|null}
 //!   cli_resp : {chunks:[[..]..] (encoded grpc-web response body as delivered), inner_trailers: bool}
 //!   cli_req  : {chunks:[[..]..], version}
-use crate::labs::framing::{BItem, ScriptBody};
+use crate::labs::framing::{BItem, ScriptBody, SegBuf};
 use crate::labs::status::headers_json;
 use crate::labs::Rec;
 use crate::util::*;
@@ -133,29 +133,6 @@ pub fn run(stim: &Value, rec: &Rec) {
 }
 /// forwards to a ScriptBody and publishes its polls-after-end counter
 struct Counted { inner: ScriptBody, cnt: Arc<AtomicUsize>, out: Arc<AtomicUsize>, seg: usize }
-/// A data frame made of several non-contiguous segments (the client layer is generic over the transport's `Buf`: chained or
-/// ring buffers are legal): `chunk()` is only the first segment.
-pub struct SegBuf(std::collections::VecDeque<Bytes>);
-impl SegBuf {
-    fn split(mut b: Bytes, seg: usize) -> SegBuf {
-        let mut q = std::collections::VecDeque::new();
-        if seg == 0 { q.push_back(b); return SegBuf(q); }
-        while b.len() > seg { q.push_back(b.split_to(seg)); }
-        q.push_back(b);
-        SegBuf(q)
-    }
-}
-impl bytes::Buf for SegBuf {
-    fn remaining(&self) -> usize { self.0.iter().map(|b| b.len()).sum() }
-    fn chunk(&self) -> &[u8] { self.0.front().map(|b| &b[..]).unwrap_or(&[]) }
-    fn advance(&mut self, mut cnt: usize) {
-        while cnt > 0 {
-            let n = self.0.front().map(|b| b.len()).expect("advance past the end");
-            if cnt >= n { self.0.pop_front(); cnt -= n; } else { bytes::Buf::advance(self.0.front_mut().unwrap(), cnt); cnt = 0; }
-        }
-        while self.0.front().map(|b| b.is_empty()).unwrap_or(false) && self.0.len() > 1 { self.0.pop_front(); }
-    }
-}
 impl http_body::Body for Counted {
     type Data = SegBuf; type Error = tonic::Status;
     fn poll_frame(mut self: Pin<&mut Self>, cx: &mut Context<'_>) -> Poll<Option<Result<http_body::Frame<SegBuf>, tonic::Status>>> {
